@@ -125,7 +125,17 @@ fn residue(rng: &mut Rng, p: u128) -> u128 {
         4 => p / 2 + 1,
         5 => p - 2,
         6 => p - 1,
-        7 => rng.below(16) as u128,
+        7 => {
+            let small = rng.below(16) as u128;
+            // half of these: values with zero 32-bit limbs below a non-zero one (k << 32, 1 << 64,
+            // (k << 64) + k, …): digit-wise multiplication schemes treat zero digits specially
+            match small % 4 {
+                0 => small,
+                1 => ((small + 1) << 32) % p,
+                2 => (1u128 << 64) % p,
+                _ => (((small + 1) << 64) + small + 1) % p,
+            }
+        }
         _ => (((rng.next() as u128) << 64) | rng.next() as u128) % p,
     }
 }
